@@ -77,6 +77,7 @@ fn m_record(variant: u8, x: &Enr) -> Option<Enr> {
 // 0x03: Way        active-request idx << 8 | src (0 the request's destination, 1 addr_M, 2 destination IP with another port, 3 IPv4-mapped form of the destination)
 // 0x04: Replay     log idx << 8 | src (0 original, 1 addr_M, 2 IPv4-mapped form of the original)
 // 0x05: Answer     shape 0..7 (M answers V's oldest request to M)
+// 0x08: MRequest   M sends a PING under the session keys it shares with V (once)
 // 0x07: ZeroKey    a TALK request claiming X from X's address, encrypted under the all-zero key
 // 0x06: Late       0: more than a challenge lifetime passes; 1: 0.6 of a lifetime passes (free, at most twice)
 fn code(kind: u32, arg: u32) -> u32 {
@@ -161,6 +162,14 @@ impl Driver for Attack {
             if let Some(s) = w.snap(V) {
                 if s.sessions.iter().any(|x| x.addr.node_id == w.nodes[X].id) {
                     out.push((Ev::Ext(code(7, 0)), 1));
+                }
+            }
+        }
+        // M as requester under an established session (also while V still awaits M's record)
+        if self.msgs {
+            if let Some(s) = w.snap(V) {
+                if s.sessions.iter().any(|x| x.addr.socket_addr == m_addr()) && !w.scratch.iter().any(|(k, _)| k == "m-request") {
+                    out.push((Ev::Ext(code(8, 0)), 1));
                 }
             }
         }
@@ -296,6 +305,17 @@ impl Driver for Attack {
                     };
                     w.log_mark = w.log.len();
                     w.deliver_raw(V, src, &d.bytes, d.kind, d.nonce, d.origin).await;
+                }
+                8 => {
+                    w.scratch.push(("m-request".into(), vec![]));
+                    let s = w.snap(V).unwrap();
+                    if let Some(sess) = s.sessions.iter().find(|x| x.addr.socket_addr == m_addr()).cloned() {
+                        let msg = v::Request { id: v::RequestId(vec![0xEF]), body: v::RequestBody::Ping { enr_seq: 1 } }.encode();
+                        let mut session = v::VSession::from_keys(sess.decryption_key, sess.encryption_key);
+                        if let Ok(p) = session.encrypt_message(m_id(), &msg) {
+                            Attack::send(w, m_addr(), p).await;
+                        }
+                    }
                 }
                 7 => {
                     let msg = v::Request { id: v::RequestId(vec![0xDE, 0xAD]), body: v::RequestBody::Talk { protocol: b"forged".to_vec(), request: vec![7] } }.encode();
@@ -492,7 +512,7 @@ pub fn regression_holds(payload: &serde_json::Value, prop: &str) -> bool {
         Some((_, c)) => c.clone(),
         None => return true,
     };
-    let monitors = Monitors { c03: prop == "C03", c04: prop == "C04", c13: prop == "C13", c15: false, c19: false, c20: false };
+    let monitors = Monitors { c03: prop == "C03", c04: prop == "C04", c13: prop == "C13", c15: false, c19: false, c20: prop == "C14" || prop == "C20" };
     let d = driver(true);
     rt::run(run_history_with(&cfg, monitors, &hist, true, &d)).violation.is_none()
 }
@@ -505,14 +525,14 @@ pub fn replay(payload: &serde_json::Value, prop: &str) {
         Some((_, c)) => c.clone(),
         None => mc::machinery(&format!("unknown attack configuration {name}")),
     };
-    let monitors = Monitors { c03: prop == "C03", c04: prop == "C04", c13: prop == "C13", c15: false, c19: false, c20: false };
+    let monitors = Monitors { c03: prop == "C03", c04: prop == "C04", c13: prop == "C13", c15: false, c19: false, c20: prop == "C14" || prop == "C20" };
     let d = driver(true);
     rt::run(crate::hsim::replay_verbose(&cfg, monitors, &hist, &d));
 }
 
 /// Runs the attacker worlds and returns (stats, violations for `prop`).
 pub fn explore(prop: &str, thorough: bool, budget_s: f64, k_max: u32) -> (mc::Stats, Vec<mc::Violation>, Vec<serde_json::Value>) {
-    let monitors = Monitors { c03: prop == "C03", c04: prop == "C04", c13: prop == "C13", c15: false, c19: false, c20: false };
+    let monitors = Monitors { c03: prop == "C03", c04: prop == "C04", c13: prop == "C13", c15: false, c19: false, c20: prop == "C14" || prop == "C20" };
     let mut d = driver(thorough);
     // partial passing of a challenge lifetime matters to the expiry clause of C03
     d.halves = thorough || prop == "C03";
